@@ -31,6 +31,7 @@ Abstracted: everything about a message except group id / time / the field `v` / 
 Core Lean only.
 -/
 import Kap.Basic
+import Kap.Model.C03
 namespace Kap.C06
 
 /-! ## Group identity -/
@@ -669,31 +670,175 @@ def derivativeNodeB : Node Unit Unit Batch Out :=
           else (some (f1, p.time), acc.2 ++ [(p.time, some (fbits ((f1 - f0) / (elapsed / 1e9))))])) (none, [])
     ((), ((), [batchOut b r.2])))
 
+/-- one `BatchPoint` of `influxqlGroup` (batch side) over an arbitrary `getCreateFn`: the context is realised from the
+first point that has the field (`rc = nil` at BeginBatch) -/
+def iqlBatchStep (gcf : Cache → Kind → Cache × Option Kind) (m : Method) (tmax : Int) (acc : Cache × Option Ctx) (p : Pt) :
+    Cache × Option Ctx :=
+  match acc.2 with
+  | some c => (acc.1, some (c.aggregate m p.v))
+  | none =>
+    match p.v.kind? with
+    | none => (acc.1, none)
+    | some k =>
+      let g := gcf acc.1 k
+      match g.2 with
+      | none => (g.1, none)
+      | some f => (g.1, some (({ kind := f, time := tmax } : Ctx).aggregate m p.v))
+
+/-- `EndBatch`: an unrealised context is realised for float64 ("assume float64 since we do not have any data") -/
+def iqlBatchFin (gcf : Cache → Kind → Cache × Option Kind) (tmax : Int) (r : Cache × Option Ctx) : Cache × Option Ctx :=
+  match r.2 with
+  | some c => (r.1, some c)
+  | none =>
+    let g := gcf r.1 .flt
+    (g.1, g.2.map (fun f => { kind := f, time := tmax }))
+
+/-- the result is emitted as a stream point at `tmax` -/
+def iqlBatchOut (m : Method) (b : Batch) : Option Ctx → List Out
+  | some c => [{ key := b.key, time := b.tmax,
+                 proj := if m == .sum && c.kind == .flt then fbits (Float.ofInt c.acc) else s!"i:{c.acc}" }]
+  | none => []
+
+def iqlOnBatch (gcf : Cache → Kind → Cache × Option Kind) (m : Method) (γ : Cache) (b : Batch) : Cache × List Out :=
+  let fin := iqlBatchFin gcf b.tmax (b.pts.foldl (iqlBatchStep gcf m b.tmax) (γ, none))
+  (fin.1, iqlBatchOut m b fin.2)
+
 /-- `influxqlGroup` batch side (`sum` / `count`) with the node-wide createFn cache: `rc = nil` at BeginBatch, the
 context is realised from the first point that has the field; at EndBatch an unrealised context is realised for
-float64 ("assume float64 since we do not have any data") and the result is emitted as a stream point at `tmax`. -/
-def iqlNodeB (m : Method) : Node Cache Unit Batch Out :=
-  batchNode () (fun γ _ b =>
-    let r := b.pts.foldl (fun (acc : Cache × Option Ctx) p =>
-      match acc.2 with
-      | some c => (acc.1, some (c.aggregate m p.v))
-      | none =>
-        match p.v.kind? with
-        | none => acc
-        | some k =>
-          let g := getCreateFn m acc.1 k
-          match g.2 with
-          | none => (g.1, none)
-          | some f => (g.1, some (({ kind := f, time := b.tmax } : Ctx).aggregate m p.v))) (γ, none)
-    let fin : Cache × Option Ctx := match r.2 with
-      | some c => (r.1, some c)
-      | none =>
-        let g := getCreateFn m r.1 .flt
-        (g.1, g.2.map (fun f => { kind := f, time := b.tmax }))
-    (fin.1, ((), match fin.2 with
-      | some c => [{ key := b.key, time := b.tmax,
-                     proj := if m == .sum && c.kind == .flt then fbits (Float.ofInt c.acc) else s!"i:{c.acc}" }]
-      | none => [])))
+float64 and the result is emitted as a stream point at `tmax`. -/
+def iqlNodeBWith (gcf : Cache → Kind → Cache × Option Kind) (m : Method) : Node Cache Unit Batch Out :=
+  batchNode () (fun γ _ b => ((iqlOnBatch gcf m γ b).1, ((), (iqlOnBatch gcf m γ b).2)))
+
+def iqlNodeB (m : Method) : Node Cache Unit Batch Out := iqlNodeBWith (getCreateFn m) m
+
+/-! ### two nodes in a row -/
+
+/-- a window's batch travels on the batch edge under ITS OWN id there (`NewBeginBatchMessage` → `ToGroupID` over the
+group's tag keys), not under the stream-edge id of the group that made it -/
+def onBatchEdge (gb : GroupID × Batch) : Item Batch := .buffered gb.2.bid gb.2
+
+/-- node A's output, carried over by `conv` (which also says under which group id each message travels), is node B's
+input: two demultiplexers in a row -/
+def runPipe {ΓA σA π μ ΓB σB μ' ο : Type} (A : Node ΓA σA π μ) (γA : ΓA) (conv : GroupID × μ → Item μ')
+    (B : Node ΓB σB μ' ο) (γB : ΓB) (items : List (Item π)) : List (GroupID × ο) :=
+  runNode B γB ((runNode A γA items).map conv)
+
+/-! ### windowByTime as a grouped receiver (the window itself is C03's proved model, imported, not re-transcribed)
+
+`WindowNode.NewGroup(group, first)` → `newWindowByTime(first.Name(), first.Time(), group, …)`: one `Kap.C03.TW` per
+group. C03's points are (time, identity); here the identity of a point is its arrival index IN ITS GROUP and the
+payload is looked up in the group's own arrival list `seen` — nothing is node-wide. -/
+
+structure WinT where
+  key : String
+  bid : String
+  seen : List Pt := []
+  tw : Kap.C03.TW
+deriving Repr, Inhabited
+
+def winTBatch (w : WinT) (seen : List Pt) (b : Kap.C03.Batch) : Batch :=
+  { key := w.key, bid := w.bid, tmax := b.tmax, pts := b.pts.filterMap (fun q => seen[q.id]?) }
+
+def windowTimeNodeB (c : Kap.C03.TCfg) : Node Unit WinT Pt Batch :=
+  { newGroup := fun _ _ first => ((), match first with
+      | .point _ p => { key := p.key, bid := p.bid, tw := Kap.C03.TW.init c p.time }
+      | .barrier _ p => { key := p.key, bid := p.bid, tw := Kap.C03.TW.init c p.time }
+      | _ => { key := "", bid := "", tw := Kap.C03.TW.init c 0 }),
+    recv := fun _ w m => ((), match m with
+      | .point _ p =>
+        let seen := w.seen ++ [p]
+        let r := w.tw.point { t := p.time, id := w.seen.length }
+        ({ w with seen := seen, tw := r.1 }, (r.2.map (winTBatch w seen)).toList)
+      | .barrier _ p =>
+        let r := w.tw.barrier p.time
+        ({ w with tw := r.1 }, (r.2.map (winTBatch w w.seen)).toList)
+      | _ => (w, [])) }
+
+/-! ### alert node with its history ring and flapping flag (`alertState.history/idx/flapping/changed`)
+
+`addEvent` (changed, ring write, `updateFlapping`), `percentChange`'s comparisons (`ringDiffs`, loop start `idx+2` as in
+today's code) and `alertState.Point`'s suppression `(UseFlapping && flapping) || (IsStateChangesOnly && !changed)`;
+no `stateChangesOnly(duration)`, no `noRecoveries`. The weighting arithmetic + hysteresis is the parameter `flap`
+(the isolation theorem holds for every `flap`); the code's float64 one is `goFlapDecide`. -/
+
+structure AlertH where
+  history : List Nat
+  idx : Nat := 0
+  flapping : Bool := false
+deriving Repr, Inhabited, DecidableEq
+
+/-- the comparisons of `percentChange`, in loop order: `c := (i + idx + 2) % l; p := c - 1` (wrapping) -/
+def ringDiffs (h : List Nat) (idx : Nat) : List Bool :=
+  (List.range (h.length - 1)).map (fun i =>
+    let c := (i + idx + 2) % h.length
+    let p := if c == 0 then h.length - 1 else c - 1
+    h.getD c 0 != h.getD p 0)
+
+/-- `percentChange` + `updateFlapping` in float64, same operations in the same order as the Go code
+(`weight := maxWeight / weightDiff` is a constant expression: exactly 0.8, then rounded) -/
+def goFlapDecide (low high : Float) (flapping : Bool) (diffs : List Bool) : Bool :=
+  let weight0 : Float := Float.ofBits 0x3FE999999999999A
+  let maxW : Float := Float.ofBits 0x3FF3333333333333
+  let step := (maxW - weight0) / diffs.length.toFloat
+  let r := diffs.foldl (fun (acc : Float × Float) d => (if d then acc.1 + acc.2 else acc.1, acc.2 + step)) (0.0, weight0)
+  let p := r.1 / diffs.length.toFloat
+  if flapping && p < low then false else if !flapping && p > high then true else flapping
+
+/-- the same decision in exact arithmetic for `history(5)`, `flapping(1/4, 1/2)` (weights 8/10 … 11/10): used by the
+non-vacuity examples only (the kernel does not compute floats) -/
+def exactFlapDecide5 (flapping : Bool) (diffs : List Bool) : Bool :=
+  let s := (diffs.zipIdx.filter (·.1)).foldl (fun a di => a + 8 + di.2) 0     -- 40 · percentChange
+  if flapping && s < 10 then false else if !flapping && s > 20 then true else flapping
+
+/-- `addEvent`: returns the new state and `changed` -/
+def alertAddEvent (useFlap : Bool) (flap : Bool → List Bool → Bool) (s : AlertH) (l : Nat) : AlertH × Bool :=
+  let changed := s.history.getD s.idx 0 != l
+  let idx := (s.idx + 1) % s.history.length
+  let h := s.history.set idx l
+  ({ history := h, idx := idx, flapping := if useFlap then flap s.flapping (ringDiffs h idx) else s.flapping }, changed)
+
+def alertHistNode (thr : Nat → Option Int) (sco useFlap : Bool) (hlen : Nat) (flap : Bool → List Bool → Bool) :
+    Node Unit AlertH Pt Out :=
+  pureNode { history := List.replicate hlen 0 } (fun s p =>
+    let l := determineLevelThr thr p.v (s.history.getD s.idx 0)
+    let r := alertAddEvent useFlap flap s l
+    if (useFlap && r.1.flapping) || (sco && !r.2) then (r.1, [])
+    else if l != 0 || r.2 then (r.1, [{ key := p.key, time := p.time, proj := levelName l }])
+    else (r.1, []))
+
+/-! ### alert node, batch side (`alertState.BufferedBatch`, no `.all()`, no flapping / stateChangesOnly)
+
+every point is judged against the level the group had BEFORE the batch; the event level is the highest one; the whole
+batch is forwarded with the level written to every point iff `level != OK || changed`; an empty batch does nothing. -/
+
+def alertBatchEmit (cur l : Nat) (b : Batch) : List Out :=
+  if l != 0 || cur != l then [batchOut b (b.pts.map (fun p => (p.time, some (levelName l))))] else []
+
+/-- `.crit/.warn/.info(lambda: "v" > T)`: per-group state = current level -/
+def alertThrNodeB (thr : Nat → Option Int) : Node Unit Nat Batch Out :=
+  batchNode 0 (fun _ cur b =>
+    if b.pts.isEmpty then ((), (cur, []))
+    else
+      let l := (b.pts.map (fun p => determineLevelThr thr p.v cur)).foldl max 0
+      ((), (l, alertBatchEmit cur l b)))
+
+/-- `.crit(lambda: P(count()))`: per-group state = (the group's `count()`, current level); `count()` runs on through the
+points of a batch and across batches, the level the points are judged against does not -/
+def alertCountNodeB (pr : CountPred) : Node Unit (Nat × Nat) Batch Out :=
+  batchNode (0, 0) (fun _ s b =>
+    if b.pts.isEmpty then ((), (s, []))
+    else
+      let r := b.pts.foldl (fun (acc : Nat × Nat) _ =>
+        let d := alertDetermine pr acc.1 s.2
+        (d.1, max acc.2 d.2)) (s.1, 0)
+      ((), ((r.1, r.2), alertBatchEmit s.2 r.2 b)))
+
+/-! ### groupBy, stream side (`GroupByNode.Point`): a stateless relabelling
+
+`dims.TagNames = computeTagNames(…); p.SetDimensions(dims)` — the point leaves with the id `idf p` (= `ToGroupID` of its
+own name / tags / computed dimensions), whatever group it arrived under. -/
+
+def groupByStream {π : Type} (idf : π → GroupID) (pts : List π) : List (GroupID × π) := pts.map (fun p => (idf p, p))
 
 /-! ### recording receiver (ties `Demux.step` to the real `groupedConsumer` on every message type) -/
 
